@@ -8,7 +8,9 @@ ID = "C18"
 RULE = ("random graphs with 1..10 vertices (edgeless, isolated vertices, paths, cycles, stars with up to 8 leaves, "
         "G(n,p)), phi in {0, 1, dyadics}, one scripted dyadic draw in [0,1) per edge in G.edges() order, including draws "
         "exactly equal to phi and (for phi=0) the draw 0.0; for graphs with <= 4 edges additionally ALL below/at/above "
-        "patterns; non-trivial = at least one edge kept and one removed; distinct by (graph, phi, draws)")
+        "patterns; one third of the cases are HISTORIES: 2-3 calls on the same graph object with edges added/removed in "
+        "between; input graphs carry node, edge and graph attributes and are compared (data and edge order) before/after "
+        "every call; non-trivial = some call with at least one edge kept and one removed; distinct by full case")
 EXHAUSTIVE = {"quick": False, "thorough": False}
 EXPLANATION = ("general theorems in Props/C18.v (components = path-connectivity, value = k/N with 1<=k<=N, phi=1, phi=0, "
                "star count, per-edge retention depends on its own draw only); correspondence with scripted draws; "
@@ -30,14 +32,26 @@ LEVEL_NOTE = ("Trusted: Coq kernel; extraction + driver + harness; independence/
               "condition. No axioms.")
 
 
+def _c(nodes, edges, phi, rs):
+    return {"nodes": nodes, "edges": edges, "calls": [{"add": [], "remove": [], "phi": phi, "rs": rs}]}
+
+
 def corpus():
-    return [
+    return [_c(c["nodes"], c["edges"], c["phi"], c["rs"]) for c in _CORPUS] + [
+        # second call on the same object after the graph grew (stale-cache regression)
+        {"nodes": [0, 1, 2, 3], "edges": [[0, 1]], "calls": [
+            {"add": [], "remove": [], "phi": [1, 1], "rs": [[1, 2]]},
+            {"add": [[1, 2], [2, 3]], "remove": [], "phi": [0, 1], "rs": [[1, 2], [1, 4], [3, 4]]}]},
+    ]
+
+
+_CORPUS = [
         {"nodes": [0, 1, 2, 3], "edges": [[0, 1], [0, 2], [0, 3]], "phi": [1, 2], "rs": [[1, 4], [3, 4], [1, 2]]},
         {"nodes": [0], "edges": [], "phi": [0, 1], "rs": []},
         {"nodes": [0, 1, 2], "edges": [[0, 1], [1, 2]], "phi": [0, 1], "rs": [[1, 8], [1, 1024]]},
         {"nodes": [0, 1, 2], "edges": [[0, 1], [1, 2]], "phi": [1, 1], "rs": [[1023, 1024], [0, 1]]},
         {"nodes": [0, 1, 2], "edges": [[0, 1], [1, 2]], "phi": [0, 1], "rs": [[0, 1], [1, 2]]},
-    ]
+]
 
 
 def _graph(rng):
@@ -74,14 +88,34 @@ def _draw(rng, phi):
     return Fraction(rng.randint(0 if r < 0.2 else 1, 1023), 1024)
 
 
+def _call(rng, edges, phi=None):
+    if phi is None:
+        phi = rng.choice([Fraction(0), Fraction(1), Fraction(1, 2), Fraction(1, 4), Fraction(3, 4),
+                          Fraction(rng.randint(0, 64), 64)])
+    return {"add": [], "remove": [], "phi": q_tree(phi), "rs": [q_tree(_draw(rng, phi)) for _ in edges]}
+
+
 def generate(rng, tier):
     n = 700 if tier == "quick" else 8000
     for i in range(n):
         nodes, edges = _graph(rng)
-        phi = rng.choice([Fraction(0), Fraction(1), Fraction(1, 2), Fraction(1, 4), Fraction(3, 4),
-                          Fraction(rng.randint(0, 64), 64)])
-        rs = [_draw(rng, phi) for _ in edges]
-        yield {"nodes": nodes, "edges": edges, "phi": q_tree(phi), "rs": [q_tree(r) for r in rs]}
+        calls = [_call(rng, edges)]
+        if i % 3 == 0:
+            # a history on ONE graph object: mutate it between calls (add / remove edges, add a vertex)
+            cur = [list(e) for e in edges]
+            for _ in range(rng.randint(1, 2)):
+                add, rem = [], []
+                for _ in range(rng.randint(0, 3)):
+                    u, v = rng.choice(nodes), rng.choice(nodes)
+                    if u != v and [u, v] not in cur and [v, u] not in cur and [u, v] not in add and [v, u] not in add:
+                        add.append([u, v])
+                if cur and rng.random() < 0.5:
+                    rem.append(rng.choice(cur))
+                cur = [e for e in cur if e not in rem] + add
+                c = _call(rng, cur)
+                c["add"], c["remove"] = add, rem
+                calls.append(c)
+        yield {"nodes": nodes, "edges": edges, "calls": calls}
     # all below / at / above patterns on small graphs
     small = [([0, 1, 2], [[0, 1], [1, 2], [0, 2]]), ([0, 1, 2, 3], [[0, 1], [0, 2], [0, 3]]),
              ([0, 1, 2, 3], [[0, 1], [2, 3]]), ([3, 1, 2, 0], [[0, 1], [1, 2], [2, 3], [3, 0]])]
@@ -89,73 +123,85 @@ def generate(rng, tier):
     import itertools
     for nodes, edges in small:
         for pat in itertools.product([Fraction(1, 4), Fraction(1, 2), Fraction(3, 4)], repeat=len(edges)):
-            yield {"nodes": nodes, "edges": edges, "phi": q_tree(phi), "rs": [q_tree(r) for r in pat]}
+            yield {"nodes": nodes, "edges": edges,
+                   "calls": [{"add": [], "remove": [], "phi": q_tree(phi), "rs": [q_tree(r) for r in pat]}]}
 
 
 def _snapshot(g):
-    return (list(g.nodes(data=True)), sorted((min(u, v), max(u, v), tuple(sorted(d.items()))) for u, v, d in g.edges(data=True)))
+    return (dict(g.graph), [(v, tuple(sorted(d.items()))) for v, d in g.nodes(data=True)], sorted((min(u, v), max(u, v), tuple(sorted(d.items()))) for u, v, d in g.edges(data=True)))
 
 
 def impl(case):
     import networkx as nx
     from gcmpy.tools.bond_percolate import bond_percolate
-    g = nx.Graph()
-    g.add_nodes_from(case["nodes"])
-    g.add_edges_from([tuple(e) for e in case["edges"]])
-    order = [[u, v] for u, v in g.edges()]
-    before = _snapshot(g)
-    phi = Fraction(*case["phi"])
-    rs = [Fraction(*r) for r in case["rs"]]
-    script = oracles.Script([("random", float(r)) for r in rs])
-    out = {"order": order}
-    try:
-        with oracles.scripted(script):
-            v = bond_percolate(g, float(phi))
-        out["value"] = q_tree(v)
-        out["calls"] = script.pos
-    except Exception as e:  # noqa: BLE001
-        out["exc"] = type(e).__name__
-    out["unchanged"] = _snapshot(g) == before
-    return out
+    g = nx.Graph(name="input")
+    for v in case["nodes"]:
+        g.add_node(v, tag="n%d" % v)
+    for i, e in enumerate(case["edges"]):
+        g.add_edge(e[0], e[1], w=i, label="e%d" % i)
+    outs = []
+    for ci, call in enumerate(case["calls"]):
+        for e in call["remove"]:
+            g.remove_edge(*e)
+        for i, e in enumerate(call["add"]):
+            g.add_edge(e[0], e[1], w=100 * (ci + 1) + i)
+        order = [[u, v] for u, v in g.edges()]
+        before = _snapshot(g)
+        rs = [Fraction(*r) for r in call["rs"]]
+        script = oracles.Script([("random", float(r)) for r in rs])
+        out = {"order": order, "nodes": list(g.nodes())}
+        try:
+            with oracles.scripted(script):
+                v = bond_percolate(g, float(Fraction(*call["phi"])))
+            out["value"] = q_tree(v)
+            out["calls"] = script.pos
+        except Exception as e:  # noqa: BLE001
+            out["exc"] = type(e).__name__
+        out["unchanged"] = _snapshot(g) == before and [[u, v] for u, v in g.edges()] == order
+        outs.append(out)
+    return outs
 
 
-def _args(case, impl_obs):
-    return [case["nodes"], impl_obs["order"], case["phi"], case["rs"]]
+def _args(case, call, o):
+    return [o["nodes"], o["order"], call["phi"], call["rs"]]
 
 
 def model_calls(case, impl_obs):
     if is_exc(impl_obs):
         return []
-    return [("c18_run", _args(case, impl_obs))]
+    return [("c18_run", _args(case, c, o)) for c, o in zip(case["calls"], impl_obs)]
 
 
 def model_obs(case, raws):
-    r = raws[0]
-    if r and r[0] == -1:
-        return {"exc": "IndexError"}
-    return {"k": r[0], "N": r[1]}
+    out = []
+    for r in raws:
+        out.append({"exc": "IndexError"} if (r and r[0] == -1) else {"k": r[0], "N": r[1]})
+    return out
 
 
 def compare(case, impl_obs, model):
     if is_exc(impl_obs):
         return f"harness-level exception {impl_obs[1]}"
-    if "exc" in model:
-        return None if impl_obs.get("exc") == model["exc"] else f"impl {impl_obs} model raises {model['exc']}"
-    if "exc" in impl_obs:
-        return f"implementation raised {impl_obs['exc']}"
-    if not close(Fraction(*impl_obs["value"]), Fraction(model["k"], model["N"]), Fraction(1, 2 ** 50)):
-        return f"value {Fraction(*impl_obs['value'])} vs model {model['k']}/{model['N']}"
-    if impl_obs["calls"] != len(case["rs"]):
-        return f"random.random called {impl_obs['calls']} times for {len(case['rs'])} edges"
-    if not impl_obs["unchanged"]:
-        return "input graph modified"
+    for ci, (call, o, m) in enumerate(zip(case["calls"], impl_obs, model)):
+        if "exc" in m:
+            if o.get("exc") != m["exc"]:
+                return f"call {ci}: impl {o} model raises {m['exc']}"
+            continue
+        if "exc" in o:
+            return f"call {ci}: implementation raised {o['exc']}"
+        if not close(Fraction(*o["value"]), Fraction(m["k"], m["N"]), Fraction(1, 2 ** 50)):
+            return f"call {ci}: value {Fraction(*o['value'])} vs model {m['k']}/{m['N']}"
+        if o["calls"] != len(o["order"]):
+            return f"call {ci}: random.random called {o['calls']} times for {len(o['order'])} edges"
+        if not o["unchanged"]:
+            return f"call {ci}: input graph modified"
     return None
 
 
 def check_calls(case, impl_obs):
-    if is_exc(impl_obs) or "value" not in impl_obs:
+    if is_exc(impl_obs):
         return []
-    return [("c18_check", _args(case, impl_obs) + [impl_obs["value"]])]
+    return [("c18_check", _args(case, c, o) + [o["value"]]) for c, o in zip(case["calls"], impl_obs) if "value" in o]
 
 
 def check_verdict(case, impl_obs, raws):
@@ -163,49 +209,66 @@ def check_verdict(case, impl_obs, raws):
         return f"harness-level exception {impl_obs[1]}"
     if not case["nodes"]:
         return None
-    if "exc" in impl_obs:
-        return f"bond_percolate raised {impl_obs['exc']} on a non-empty graph"
-    if not impl_obs["unchanged"]:
-        return "bond_percolate modified its input graph"
-    okv, okr = raws[0]
-    if not okr:
-        return "largest component outside [1, N]"
-    if not okv:
-        return "returned value is not (largest component of the retained subgraph)/N for these draws"
+    j = 0
+    for ci, o in enumerate(impl_obs):
+        if "exc" in o:
+            return f"call {ci}: bond_percolate raised {o['exc']} on a non-empty graph"
+        if not o["unchanged"]:
+            return f"call {ci}: bond_percolate modified its input graph (edges, order or attribute data)"
+        okv, okr = raws[j]
+        j += 1
+        if not okr:
+            return f"call {ci}: largest component outside [1, N]"
+        if not okv:
+            return (f"call {ci}: returned value is not (largest component of the retained subgraph)/N "
+                    "for the current edge set and these draws")
     return None
 
 
 def nontrivial_key(case, impl_obs):
-    phi = Fraction(*case["phi"])
-    kept = [Fraction(*r) <= phi for r in case["rs"]]
-    return [case["nodes"], case["edges"], case["phi"], case["rs"]] if (any(kept) and not all(kept)) else None
+    nt = False
+    for call in case["calls"]:
+        phi = Fraction(*call["phi"])
+        kept = [Fraction(*r) <= phi for r in call["rs"]]
+        nt = nt or (any(kept) and not all(kept))
+    return [case["nodes"], case["edges"], case["calls"]] if nt else None
 
 
 def shrink(case):
-    for i in range(len(case["edges"])):
+    if len(case["calls"]) > 1:
         c = dict(case)
-        c["edges"] = case["edges"][:i] + case["edges"][i + 1:]
-        c["rs"] = case["rs"][:i] + case["rs"][i + 1:]
+        c["calls"] = case["calls"][:-1]
         yield c
-    used = {v for e in case["edges"] for v in e}
-    for v in case["nodes"]:
-        if v not in used and len(case["nodes"]) > 1:
+    if len(case["calls"]) == 1:
+        call = case["calls"][0]
+        for i in range(len(case["edges"])):
             c = dict(case)
-            c["nodes"] = [x for x in case["nodes"] if x != v]
+            c["edges"] = case["edges"][:i] + case["edges"][i + 1:]
+            c["calls"] = [dict(call, rs=call["rs"][:i] + call["rs"][i + 1:])]
             yield c
+        used = {v for e in case["edges"] for v in e}
+        for v in case["nodes"]:
+            if v not in used and len(case["nodes"]) > 1:
+                c = dict(case)
+                c["nodes"] = [x for x in case["nodes"] if x != v]
+                yield c
 
 
 def describe(case, impl_obs):
-    return {"nodes": case["nodes"], "edges": case["edges"], "phi": case["phi"], "draws": case["rs"],
-            "value": impl_obs.get("value") if isinstance(impl_obs, dict) else impl_obs}
+    return {"nodes": case["nodes"], "edges": case["edges"], "calls": case["calls"],
+            "values": [o.get("value") for o in impl_obs] if isinstance(impl_obs, list) else impl_obs}
 
 
 def histogram(cases):
-    h = {"cases": len(cases), "phi0": 0, "phi1": 0, "edgeless": 0, "draw_equals_phi": 0, "edges_total": 0}
+    h = {"cases": len(cases), "calls": 0, "multi_call_histories": 0, "phi0": 0, "phi1": 0, "edgeless": 0,
+         "draw_equals_phi": 0, "draws_total": 0}
     for c in cases:
-        h["phi0"] += c["phi"][0] == 0
-        h["phi1"] += c["phi"] == [1, 1]
+        h["multi_call_histories"] += len(c["calls"]) > 1
         h["edgeless"] += not c["edges"]
-        h["draw_equals_phi"] += any(r == c["phi"] for r in c["rs"])
-        h["edges_total"] += len(c["edges"])
+        for call in c["calls"]:
+            h["calls"] += 1
+            h["phi0"] += call["phi"][0] == 0
+            h["phi1"] += call["phi"] == [1, 1]
+            h["draw_equals_phi"] += any(r == call["phi"] for r in call["rs"])
+            h["draws_total"] += len(call["rs"])
     return h
